@@ -20,6 +20,7 @@ func runC01Gaps2(c *eng.Ctx) {
 	c01gRawPathAgreement(c)
 	c01gStorageAccessUsers(c)
 	c01gWriterFormat(c)
+	c01gNotFoundOnlyWhenAbsent(c)
 }
 
 // C01.6: the two seal-wrapped bootstrap records (stored barrier keys, recovery
@@ -245,4 +246,37 @@ func c01gWriterFormat(c *eng.Ctx) {
 		}
 	}
 	c.Floor(nil, "writers of currentAESGCMVersionByte", len(ws), 1)
+}
+
+// C01.3 (readers): a barrier read answers "no such entry" (nil entry, nil
+// error) only when the backend returned no entry: the return is cut by the
+// `entry == nil` edge of the backend Get. No test of the stored value's length
+// or content may lead there — an emptied or truncated record is an error.
+func c01gNotFoundOnlyWhenAbsent(c *eng.Ctx) {
+	c.Clause("R2", "C01.3")
+	n := 0
+	for _, f := range c.P.Funcs {
+		if !eng.InPkg(f, "barrier") || f.Signature.Results().Len() != 2 || structTypeName(f.Signature.Results().At(0).Type()) != "logical.StorageEntry" {
+			continue
+		}
+		if len(eng.Calls(f, `<physical\.Backend>\.Get$`)) == 0 {
+			continue
+		}
+		withValue := map[ssa.Instruction]bool{}
+		for _, r := range eng.NonNilResultReturns(f, 0) {
+			withValue[r] = true
+		}
+		var notFound []ssa.Instruction
+		for _, r := range eng.SuccessReturns(f, 1) {
+			if !withValue[r] {
+				notFound = append(notFound, r)
+			}
+		}
+		if len(notFound) == 0 {
+			continue
+		}
+		n++
+		c.Cut(f, "return of (no entry, no error)", notFound, eng.G(f, `^<physical\.Backend>\.Get\(\)#0 == nil$`, true), nil)
+	}
+	c.Floor(nil, "barrier readers with a not-found return", n, 1)
 }
